@@ -140,9 +140,20 @@ pub fn emit(o: &Opts) {
          picked.push(c);
       }
    }
-   for c in cases.iter().filter(|c| c.expect_inproc == "accept").take(if o.tier == "quick" { 20 } else { 100 }) {
-      if !picked.iter().any(|p| p.id == c.id) {
+   // (first one case per (site class, macro) combination, then the first ones in generation order)
+   let accept_n = if o.tier == "quick" { 40 } else { 150 };
+   let mut seen_combo = std::collections::BTreeSet::new();
+   let mut n_acc = 0;
+   for c in cases.iter().filter(|c| c.expect_inproc == "accept") {
+      if n_acc < accept_n && seen_combo.insert((c.site.clone(), c.kind.clone())) && !picked.iter().any(|p| p.id == c.id) {
          picked.push(c);
+         n_acc += 1;
+      }
+   }
+   for c in cases.iter().filter(|c| c.expect_inproc == "accept") {
+      if n_acc < accept_n && !picked.iter().any(|p| p.id == c.id) {
+         picked.push(c);
+         n_acc += 1;
       }
    }
    let mods: Vec<(String, String, String)> = picked.iter().map(|c| (c.id.clone(), c.kind.clone(), c.text.clone())).collect();
